@@ -452,11 +452,8 @@ def _seed_files(seed):
             path, _, arrays = _rt_file(container, layout, (4,), "int16", seed, sub)
             with open(path, "rb") as f:
                 out[name] = ("utt" + suffix, f.read(), arrays["sig"])
-        import soundfile as sf
-
-        b = io.BytesIO()
-        sf.write(b, _values(seed, (4,), "int16"), 8000, format="OGG", subtype="VORBIS")
-        out["ogg"] = ("utt.ogg", b.getvalue(), None)
+        # no Ogg seed file: libsndfile gives every Ogg stream a random serial number, so its
+        # bytes would differ from run to run (the ".ogg" key is still exercised with all the others)
     _SEEDS = (seed, out)
     return out
 
@@ -486,11 +483,10 @@ def _cyclic_files(seed):
 
 
 def _subst(b, wide=False):
-    if not wide:
-        vals = [(b + 1) % 256, b ^ 0x80, 0x00 if b else 0xFF]
-    else:
-        vals = [(b + 1) % 256] + [b ^ (1 << k) for k in range(8)] + [0x00, 0xFF]
-    return [v for i, v in enumerate(vals) if v != b and v not in vals[:i]]
+    """replacement values for a byte: always the same number of distinct values != b, so that the
+    size of the family depends on the file length only (zip members carry time stamps)"""
+    masks = [0xFF, 0x80, 0x01] if not wide else [1 << k for k in range(8)] + [0xFF, 0x55, 0xAA]
+    return [b ^ m for m in masks]
 
 
 def _family(fam, seed, lo=0, hi=None):
@@ -546,7 +542,7 @@ def _isolated(key, datas, timeout=20):
                 try:
                     with open("/proc/self/statm") as f:
                         vm = int(f.read().split()[0]) * resource.getpagesize()
-                    resource.setrlimit(resource.RLIMIT_AS, (vm + (3 << 30), vm + (3 << 30)))
+                    resource.setrlimit(resource.RLIMIT_AS, (vm + (1 << 30), vm + (1 << 30)))
                 except Exception:
                     pass
                 signal.signal(signal.SIGALRM, signal.SIG_DFL)
@@ -628,6 +624,13 @@ def _wds_judge(key, fam, data, outcome, expected_digest, case):
         return core.violation(dict(tags, what="wds_native_crash", how=outcome[1]),
                               "wds_read_signal(%r, <%d bytes %s...>) killed the interpreter (%s)" % (
                                   key, len(data), data[:12].hex(), outcome[1]), case)
+    if expected_digest is not None and outcome[0] in ("hang", "none"):
+        # an intact file: whichever way the decode was lost (no return within the alarm, or an
+        # error swallowed into None) it is the same failure to read back what was stored
+        return core.violation(dict(tags, what="wds_roundtrip"),
+                              "wds_read_signal(%r, <intact %d-byte file>) gave no array (it returned None "
+                              "or did not return within the alarm), expected the stored array" % (
+                                  key, len(data)), case)
     if outcome[0] == "hang":
         return core.violation(dict(tags, what="wds_hang"),
                               "wds_read_signal(%r, <%d bytes %s...>) did not return (%s)" % (
@@ -748,9 +751,10 @@ def subchecks(tier, seed):
             "and counted as non-trivial" % (
                 len(WDS_KEYS),
                 "all 65536 two-byte strings" if tier == "thorough" else "256 two-byte strings over 16 magic bytes",
-                "every single-bit flip, b+1, 0x00 and 0xFF" if tier == "thorough" else "3 substitutions"),
+                "11 substitutions (every single-bit flip, b^0xFF, b^0x55, b^0xAA)" if tier == "thorough"
+                else "3 substitutions (b^0xFF, b^0x80, b^0x01)"),
             axes=dict(keys=WDS_KEYS, families=fams, valid_file_bytes=sizes, alphabet=ALPHABET,
-                      substitutions=("b+1, 8 single-bit flips, 0x00, 0xFF" if tier == "thorough"
-                                     else "b+1, b^0x80, 0 (0xFF for a zero byte)")),
+                      substitutions=("8 single-bit flips, b^0xFF, b^0x55, b^0xAA" if tier == "thorough"
+                                     else "b^0xFF, b^0x80, b^0x01")),
             replay=lambda case: _replay(case, seed), chunk=1, kind="fault_enumeration"),
     ]
